@@ -1828,6 +1828,7 @@ class Compiler:
         callbacks = []
         cleanup = []
         backups = set()
+        fillers = []
         for slot in node.slots:
             key = "__slot_%s" % mangle(slot.name)
             fun = "__fill_%s" % mangle(slot.name)
@@ -1882,22 +1883,8 @@ class Compiler:
                     lineno=None,
                 ))
 
+            fillers.append((key, fun))
             key = ast.Constant(key)
-
-            assignment = template(
-                "_slots = econtext[KEY] = DEQUE((NAME,))",
-                KEY=key, NAME=fun, DEQUE=Symbol(collections.deque),
-            )
-
-            if node.extend:
-                append = template("_slots.appendleft(NAME)", NAME=fun)
-
-                assignment = [ast.Try(
-                    body=template("_slots = getname(KEY)", KEY=key),
-                    handlers=[ast.ExceptHandler(body=assignment)],
-                    finalbody=[],
-                    orelse=append,
-                )]
 
             # The fillers are offered to this macro only: a filler that
             # the macro did not use must not fill a slot of the same
@@ -1910,6 +1897,34 @@ class Compiler:
                     "if BACKUP is __marker: del econtext[KEY]\n"
                     "else:                 econtext[KEY] = BACKUP",
                     BACKUP=backup, KEY=key))
+
+        for key, fun in fillers:
+            assignment = template(
+                "_slots = econtext[KEY] = DEQUE((NAME,))",
+                KEY=ast.Constant(key), NAME=fun,
+                DEQUE=Symbol(collections.deque),
+            )
+
+            if node.extend:
+                if key in self._slots:
+                    # This macro offers the slot again (inside one of
+                    # its fillers) and has taken the outermost filler
+                    # for it: that one overrides the fillers of the
+                    # levels in between, which must not reach the
+                    # extended macro in place of this one.
+                    append = template(
+                        "_slots.clear()\n_slots.append(NAME)", NAME=fun)
+                else:
+                    append = template("_slots.appendleft(NAME)", NAME=fun)
+
+                assignment = [ast.Try(
+                    body=template("_slots = getname(KEY)",
+                                  KEY=ast.Constant(key)),
+                    handlers=[ast.ExceptHandler(body=assignment)],
+                    finalbody=[],
+                    orelse=append,
+                )]
+
             callbacks.extend(assignment)
 
         assert self._macros.pop() == node.extend
